@@ -53,6 +53,7 @@ SOUP = ['CREATE', 'TABLE', 'INSERT', 'INTO', 'VALUES', 'ROP', 'REF_ID', 'FROM', 
         '5', '0.5', "'s'", "''", '"00000000-0000-0000-0000-000000000001"', '-- c\n', '\n', 'I1']
 
 
+PROBE = "CREATE TABLE Probe_ (\n    A INTEGER,\n\n    B STRING\n);\nINSERT INTO Probe_\n  VALUES (1,\n  @);\n"
 REDOS_OPEN = ["'", '"', '--', "INSERT INTO X VALUES ('", 'INSERT INTO X VALUES ("', 'INSERT INTO X VALUES (1.', 'CREATE ROP REF_ID R',
               'INSERT INTO X VALUES (-', "CREATE TABLE X (A STRING); INSERT INTO X VALUES ('"]
 REDOS_UNIT = ['a', "''", '\\', '\\"', "'x", ' ', '\n', '1', '.', '-', '--', '\t', 'é', "''''"]
@@ -109,6 +110,10 @@ class Corpus(object):
                 if words[:2] == ['CREATE', 'TABLE'] and len(toks) > 2:
                     self.tables.setdefault((fi, words[2]), s)
                     self.tables.setdefault((None, words[2]), s)
+        self.rows = {}              # (file index, KIND) -> INSERT statements of that class
+        for fi, stmt in self.stmts:
+            for kd in mentioned_kinds(stmt):
+                self.rows.setdefault((fi, kd.upper()), []).append(stmt)
         self.blocks = []
         start = 0
         while start < len(self.stmts):
@@ -123,13 +128,19 @@ class Corpus(object):
         return self.tables.get((fi, kind.upper())) or self.tables.get((None, kind.upper()))
 
 
-def mentioned_kinds(stmt):
+def mentioned_kinds(stmt, rop=False):
     toks = [(k, stmt[a:b]) for k, a, b in sqlgen.tokenize(stmt) if k not in ('ws', 'comment')]
     words = [t for _, t in toks]
     up = [w.upper() for w in words]
     out = []
-    if up[:2] == ['INSERT', 'INTO'] and len(words) > 2:
+    if up[:2] == ['INSERT', 'INTO'] and len(words) > 2 and not rop:
         out.append(words[2])
+    if up[:2] == ['CREATE', 'ROP'] and rop:
+        for kw in ('FROM', 'TO'):
+            if kw in up[2:]:
+                i = up.index(kw, 2)
+                if i + 2 < len(words):
+                    out.append(words[i + 2])
     return out
 
 
@@ -338,6 +349,16 @@ class LoadFaultEngine(Engine):
                 if kd.upper() not in [q.upper() for q in kinds]:
                     kinds.append(kd)
         prefix = [t for t in (cp.table_for(fi, kd) for kd in kinds) if t]
+        # classes named by the associations of the block: their tables and a few of their rows, so that an
+        # accepted (damaged) association is actually populated when the loader builds
+        for si in range(start, end):
+            for kd in mentioned_kinds(cp.stmts[si][1], rop=True):
+                if kd.upper() not in [q.upper() for q in kinds]:
+                    kinds.append(kd)
+                    t = cp.table_for(fi, kd)
+                    if t:
+                        prefix.append(t)
+                        prefix.extend(cp.rows.get((fi, kd.upper()), [])[:2])
         prefix = [''.join(prefix)] if prefix else []
         try:
             L, T = self.fresh_pair(prefix)
@@ -410,6 +431,20 @@ class LoadFaultEngine(Engine):
                     since_sync += 1
                     if since_sync >= 10:
                         since_sync = 0
+                        # later inputs behave as if the rejected calls had not happened -- diagnostics included:
+                        # the same malformed text must be rejected with the same message by the loader and its twin
+                        msgs = []
+                        for ld in (L, T):
+                            try:
+                                ld.input(PROBE, 'probe')
+                                msgs.append('accepted')
+                            except x.ParsingException as e:
+                                msgs.append(str(e))
+                        if msgs[0] != msgs[1]:
+                            raise Violation('half-applied', 'after rejected inputs the loader reports a later malformed '
+                                            'text differently from a loader that never saw them: %r vs %r' % tuple(msgs),
+                                            'half-applied:diagnostics')
+                        bump(probes, 'diagnostics_compared')
                         sfx = cp.stmts[rrng.randrange(start, end)][1]
                         try:
                             L.input(sfx)
@@ -523,7 +558,7 @@ class LoadFaultEngine(Engine):
                 missing.append(k + '_accepted')
             if not probes.get(k + '_rejected'):
                 missing.append(k + '_rejected')
-        for k in ('build_ok', 'build_ParsingException', 'build_MetaException', 'suffix_compared'):
+        for k in ('build_ok', 'build_ParsingException', 'build_MetaException', 'suffix_compared', 'diagnostics_compared'):
             if not probes.get(k):
                 missing.append(k)
         if not faults.get('F5_io_error_read'):
